@@ -203,7 +203,17 @@ func optionIniName(option *Option) string {
 		return name
 	}
 
-	return option.field.Name
+	if len(option.field.Name) != 0 {
+		return option.field.Name
+	}
+
+	// An option added with AddOption has no struct field: name it the way
+	// the reader finds it
+	if name = option.LongNameWithNamespace(); len(name) != 0 {
+		return name
+	}
+
+	return string(option.ShortName)
 }
 
 func writeGroupIni(cmd *Command, group *Group, namespace string, writer io.Writer, options IniOptions) {
@@ -240,7 +250,12 @@ func writeGroupIni(cmd *Command, group *Group, namespace string, writer io.Write
 		}
 
 		if !sectionwritten {
-			fmt.Fprintf(writer, "[%s]\n", sname)
+			// The options of the parser's own group (added with
+			// AddOption) belong to the unnamed section at the top
+			if len(sname) != 0 || cmd.Group != group {
+				fmt.Fprintf(writer, "[%s]\n", sname)
+			}
+
 			sectionwritten = true
 		}
 
